@@ -19,7 +19,8 @@ EXPLANATION = (
     'probe, the evaluation and the quiescence call; inside the 50-move branch `return 0` cannot be reached when the side to move is in '
     'check and has no legal move (mate first); (3) EngineControl::setupPosition pushes the hash before makeMove and drops the history '
     'only on reversible-move information (half-move clock zero, or more than 100 reversible plies); Search::init takes the first-new '
-    'index from the history size; (4) every Game::GameState enumerator has an arm in getGameStateString and getPGNResultString.')
+    'index from the history size; (4) every Game::GameState enumerator has an arm in getGameStateString and getPGNResultString.'
+    ' (5) the en-passant mask tables are correct for all 8 files and makeMove records an en-passant square only under the mask test (a spurious en-passant square makes rule-equal positions hash differently).')
 UNDECIDED = ('equality of hash keys for rule-equal positions beyond the structural clauses (value-level); the index arithmetic of canClaimDrawRep (start -4, step 2, clock bound) - value-level off-by-one territory; console draw '
              'claim semantics. Noticed, outside the property as stated and therefore not reported: WorkerThread::doSearch pushes the hash '
              'of the position AFTER the root move, so helper threads miss in-tree repetitions of the root position (never compared at the root level).')
